@@ -16,9 +16,22 @@ Judge_parse(c) ==
              Tri("C11.names", NameSet(c.res.names) = DOMAIN P.st.names),
              \* the returned schema carries full names and resolved references: re-parsing it (no namespace context left) gives the same tree
              \* (a null-namespace type nested in a namespaced one keeps "namespace": "" in the result - repaired defect 6173736)
-             Tri("C11.tree", R.ok /\ R.t = P.t) >>
+             Tri("C11.tree", R.ok /\ R.t = P.t),
+             \* ... and every by-name reference in it is spelled with the full name of the definition it denotes (the library looks
+             \* references up literally)
+             LET RF == ParseFlat(c.res.parsed) IN Tri("C11.refs", RF.ok /\ RF.t = P.t) >>
   ELSE IF P.kind = "other" THEN << Cl("C11.reject", "unspec") >>
   ELSE << Tri("C11.reject." \o P.kind, IsParseError(c.res)) >>
+
+\* a logical annotation anywhere in the tree (which side's annotation governs a resolved read is not pinned by the properties)
+RECURSIVE HasLogical(_)
+HasLogical(t) ==
+  CASE t.k = "array" -> HasLogical(t.items)
+    [] t.k = "map" -> HasLogical(t.values)
+    [] t.k = "union" -> \E i \in 1..Len(t.br) : HasLogical(t.br[i])
+    [] t.k = "record" -> \E i \in 1..Len(t.fields) : HasLogical(t.fields[i].type)
+    [] t.k \in {"ref", "enum"} -> FALSE
+    [] OTHER -> "lt" \in DOMAIN t /\ t.lt # NoLt
 
 \* op = "canon": c.schema, c.text (to_parsing_canonical_form), c.text2 (canonical form of json.loads(text)), c.tree2 (json.loads(text)),
 \*   c.variants << [schema, text] >> cosmetic rewrites, c.enc << [datum, bytes (written under schema), back (read under canonical schema)] >>
@@ -45,7 +58,17 @@ Judge_canon(c) ==
                          LET e == c.enc[i]
                              d1 == Decode(CanonTree(P.t), e.bytes, MapNames(P.st.names))
                              d2 == Decode(P2.t, e.bytes, P2.st.names)
-                         IN d1.st = "ok" /\ d2.st = "ok" /\ VEq(d1.v, d2.v) /\ e.back.ok /\ VEq(e.back.v, d2.v)) >>
+                         IN d1.st = "ok" /\ d2.st = "ok" /\ VEq(d1.v, d2.v) /\ e.back.ok /\ VEq(e.back.v, d2.v)),
+             \* ... also when both are given, in either role (schemas without logical annotations: which side's annotation governs a
+             \* resolved read is not pinned)
+             IF Len(c.enc) = 0 \/ ~P2.ok \/ NullNsInside(P.t, <<>>) \/ HasLogical(P.t) THEN Cl("C13.resolves", "skip")
+             ELSE Tri("C13.resolves",
+                      \A i \in 1..Len(c.enc) :
+                         LET e == c.enc[i]
+                             d2 == Decode(P2.t, e.bytes, P2.st.names)
+                             d0 == Decode(P.t, e.bytes, P.st.names)
+                         IN d2.st = "ok" /\ e.back2.ok /\ VEq(e.back2.v, d2.v)
+                            /\ (d0.st = "ok" /\ VEq(d0.v, d2.v) => e.back3.ok /\ VEq(e.back3.v, d0.v))) >>
 
 \* op = "fingerprint": c.text (code points), c.alg (text), c.res = [ok, hex (text)] | [ok |-> FALSE, exc], c.known << [name, hex] >> (hashlib digests of the UTF-8 bytes)
 A_RABIN == Cps("CRC-64-AVRO")
